@@ -4,6 +4,7 @@ pairing_heap.hpp refines the functional model (so the theorems hold of the point
 import sys
 import vlib
 from comp.pairing import check as pairing
+from comp.ptrgen import check as ptrgen
 
 def main():
     c = vlib.Check("C08")
@@ -11,7 +12,9 @@ def main():
     c.trusted = ["Coq 8.16.1 kernel (coqc; vm_compute only in Examples)"] + pairing.TRUSTED
     c.assumptions = pairing.ASSUMPTIONS
     c.kind_filter = lambda k: k not in vlib.LIFETIME_KINDS     # pairing_heap owns nothing; no lifetime kinds are produced
-    c.prove(["C08", "C08_ptr"])
+    ptrgen.run(c, ["pairing"])    # pointer-level definitions re-translated from the current source (translator tie)
+    c.trusted = c.trusted + ptrgen.TRUSTED
+    c.prove(["C08", "C08_ptr"] + ptrgen.prop_ids(["pairing"]))
     pairing.run(c)
     sys.exit(c.finish())
 
